@@ -22,7 +22,7 @@ func init() {
 	Register(&Spec{
 		ID:        "C19",
 		Technique: "runtime monitoring: taint-canary monitor — high-entropy secrets occur only inside marked values; every diagnostic's summary, detail and text rendering is scanned for them",
-		Rule: "each case is a generated (50% ill-typed) expression, a directed erroneous program, or a body decoded with hcldec/dynblock, evaluated in a scope where per-case random canaries (14-character strings, 10-digit numbers) occur only inside values marked S: whole values, nested elements, map keys, values reached through conversions; all diagnostics are rendered as Summary, Detail and through NewDiagnosticTextWriter (source registered, width 0/78, colour on/off) and scanned for every canary; " +
+		Rule: "each case is a generated (50% ill-typed) expression, a directed erroneous program, or a body decoded with hcldec/dynblock, evaluated in a scope where per-case random canaries (14-character strings, 10-digit numbers) occur only inside values marked S: whole values, nested elements, map keys, values reached through conversions, collections marked as a whole that hold the same secret twice; all diagnostics are rendered as Summary, Detail and through NewDiagnosticTextWriter (source registered, width 0/78, colour on/off) and scanned for every canary; " +
 			"non-trivial = the evaluation produced at least one diagnostic and the program reads a canary-carrying variable; distinct by program + scope hash",
 		Assumptions: []string{"canaries are random 14-character / 10-digit strings that do not occur in the source text, in identifiers or in any message template, so a hit can only come from a value", "messages of harness functions are fixed canary-free strings (application functions are outside the guarantee)"},
 		Quick:       Plan{Batches: 16, PerBatch: 5000, MinNonTrivial: 12000},
